@@ -30,6 +30,21 @@ CHECKS = {
         note="Trusted: Coq kernel, correspondence harness (generators, printer), parser stand-in, translator for "
              "scalar leaves; directive hooks absent from this model (C13); custom scalars are oracle triples.",
         design="4 C04"),
+    "C05": dict(
+        technique="Coq theorems on the impl model of argument/literal coercion + differential correspondence "
+                  "with pairwise spelling comparison on the real engine",
+        text="Theorems (all schemas, types, variable maps): variables are substituted as-is at every position "
+             "of every type (value, or invalid when missing/null at non-null); a variable passed directly "
+             "delivers its coerced value; omitted vs explicit null vs unprovided variable; schema default = "
+             "same literal written explicitly; errors are local to the argument. Leaf literal=variable laws "
+             "are the C10 theorems. The impl model is tied to /repo by generated requests that spell one value "
+             "as literal / variable / nested variable / variable default / schema default / null / omitted; "
+             "the dictionaries the real resolvers receive are compared with the model inside Coq and with "
+             "each other. PARTIAL: 'no value of another type is ever delivered' rests on the variable-usage "
+             "validation rule (C07), not proved here.",
+        note="Trusted: Coq kernel, correspondence harness, parser stand-in, scalar translator; directive "
+             "argument positions use the same coerce_arguments code path and are exercised by C13's check.",
+        design="4 C05"),
 }
 
 NOT_YET = {
